@@ -18,9 +18,22 @@ macro_rules! unroll {
     }};
 }
 
-#[derive(Clone, Debug)]
+/// The slot array lives in its own heap object (`Box`), not inline: Kani 0.68 / CBMC 6.11 lose writes of
+/// symbolic values into an inline array of `Option`s that sits inside an enum variant (a six-line harness
+/// `enum E { A([Option<(usize,i64)>;4]), B }; m[0] = Some((5, v)); assert key == 5` FAILS there, and the native
+/// replay of that "counterexample" passes) — found by the replay step on C30; see DESIGN.md §7.
 pub struct HashMap<K, V> {
-    slots: [Option<(K, V)>; CAP],
+    slots: Box<[Option<(K, V)>; CAP]>,
+}
+impl<K: Clone, V: Clone> Clone for HashMap<K, V> {
+    fn clone(&self) -> Self {
+        HashMap { slots: self.slots.clone() }
+    }
+}
+impl<K: std::fmt::Debug, V: std::fmt::Debug> std::fmt::Debug for HashMap<K, V> {
+    fn fmt(&self, f: &mut std::fmt::Formatter<'_>) -> std::fmt::Result {
+        f.debug_map().entries(self.iter()).finish()
+    }
 }
 
 impl<K, V> Default for HashMap<K, V> {
@@ -31,7 +44,15 @@ impl<K, V> Default for HashMap<K, V> {
 
 impl<K, V> HashMap<K, V> {
     pub fn new() -> Self {
-        HashMap { slots: [None, None, None, None] }
+        HashMap { slots: Box::new([None, None, None, None]) }
+    }
+    #[inline(always)]
+    fn s(&self) -> &[Option<(K, V)>; CAP] {
+        &self.slots
+    }
+    #[inline(always)]
+    fn sm(&mut self) -> &mut [Option<(K, V)>; CAP] {
+        &mut self.slots
     }
     pub fn with_capacity(_n: usize) -> Self {
         Self::new()
@@ -39,7 +60,7 @@ impl<K, V> HashMap<K, V> {
     pub fn len(&self) -> usize {
         let mut n = 0;
         unroll!(i, {
-            if self.slots[i].is_some() {
+            if self.s()[i].is_some() {
                 n += 1;
             }
         });
@@ -50,14 +71,14 @@ impl<K, V> HashMap<K, V> {
     }
     pub fn clear(&mut self) {
         unroll!(i, {
-            self.slots[i] = None;
+            self.sm()[i] = None;
         });
     }
     pub fn iter(&self) -> Iter<'_, K, V> {
         Iter { m: self, i: 0 }
     }
     pub fn iter_mut(&mut self) -> impl Iterator<Item = (&K, &mut V)> {
-        self.slots.iter_mut().filter_map(|s| s.as_mut().map(|(k, v)| (&*k, v)))
+        self.sm().iter_mut().filter_map(|s| s.as_mut().map(|(k, v)| (&*k, v)))
     }
     pub fn keys(&self) -> Keys<'_, K, V> {
         Keys(self.iter())
@@ -66,16 +87,16 @@ impl<K, V> HashMap<K, V> {
         Values(self.iter())
     }
     pub fn values_mut(&mut self) -> impl Iterator<Item = &mut V> {
-        self.slots.iter_mut().filter_map(|s| s.as_mut().map(|(_, v)| v))
+        self.sm().iter_mut().filter_map(|s| s.as_mut().map(|(_, v)| v))
     }
     pub fn retain<F: FnMut(&K, &mut V) -> bool>(&mut self, mut f: F) {
         unroll!(i, {
-            let keep = match self.slots[i].as_mut() {
+            let keep = match self.sm()[i].as_mut() {
                 Some((k, v)) => f(k, v),
                 None => true,
             };
             if !keep {
-                self.slots[i] = None;
+                self.sm()[i] = None;
             }
         });
     }
@@ -88,7 +109,7 @@ impl<K: PartialEq, V> HashMap<K, V> {
         Q: PartialEq,
     {
         unroll!(i, {
-            if let Some((kk, _)) = &self.slots[i] {
+            if let Some((kk, _)) = &self.s()[i] {
                 if kk.borrow() == k {
                     return Some(i);
                 }
@@ -98,13 +119,13 @@ impl<K: PartialEq, V> HashMap<K, V> {
     }
     pub fn insert(&mut self, k: K, v: V) -> Option<V> {
         if let Some(i) = self.find(&k) {
-            let old = self.slots[i].take();
-            self.slots[i] = Some((k, v));
+            let old = self.sm()[i].take();
+            self.sm()[i] = Some((k, v));
             return old.map(|(_, v)| v);
         }
         unroll!(i, {
-            if self.slots[i].is_none() {
-                self.slots[i] = Some((k, v));
+            if self.s()[i].is_none() {
+                self.sm()[i] = Some((k, v));
                 return None;
             }
         });
@@ -116,7 +137,7 @@ impl<K: PartialEq, V> HashMap<K, V> {
         Q: PartialEq,
     {
         match self.find(k) {
-            Some(i) => self.slots[i].take().map(|(_, v)| v),
+            Some(i) => self.sm()[i].take().map(|(_, v)| v),
             None => None,
         }
     }
@@ -126,7 +147,7 @@ impl<K: PartialEq, V> HashMap<K, V> {
         Q: PartialEq,
     {
         match self.find(k) {
-            Some(i) => self.slots[i].as_ref().map(|(_, v)| v),
+            Some(i) => self.s()[i].as_ref().map(|(_, v)| v),
             None => None,
         }
     }
@@ -136,7 +157,7 @@ impl<K: PartialEq, V> HashMap<K, V> {
         Q: PartialEq,
     {
         match self.find(k) {
-            Some(i) => self.slots[i].as_mut().map(|(_, v)| v),
+            Some(i) => self.sm()[i].as_mut().map(|(_, v)| v),
             None => None,
         }
     }
@@ -163,7 +184,7 @@ impl<'a, K, V> Iterator for Iter<'a, K, V> {
         let mut out = None;
         unroll!(j, {
             if out.is_none() && j >= self.i {
-                if let Some((k, v)) = &self.m.slots[j] {
+                if let Some((k, v)) = &self.m.s()[j] {
                     out = Some((k, v));
                     self.i = j + 1;
                 }
@@ -208,18 +229,18 @@ impl<'a, K: PartialEq, V> Entry<'a, K, V> {
             None => {
                 let mut free = CAP;
                 unroll!(i, {
-                    if self.map.slots[i].is_none() && free == CAP {
+                    if self.map.sm()[i].is_none() && free == CAP {
                         free = i;
                     }
                 });
                 if free == CAP {
                     panic!("VK-REPLAY-SHIM vkcoll capacity exceeded");
                 }
-                self.map.slots[free] = Some((self.key, f()));
+                self.map.sm()[free] = Some((self.key, f()));
                 free
             }
         };
-        self.map.slots[idx].as_mut().map(|(_, v)| v).unwrap()
+        self.map.sm()[idx].as_mut().map(|(_, v)| v).unwrap()
     }
     pub fn or_insert(self, v: V) -> &'a mut V {
         self.or_insert_with(|| v)
